@@ -31,4 +31,16 @@ SortsBefore(a, b) == TypeIndex(a) < TypeIndex(b) \/ (TypeIndex(a) = TypeIndex(b)
 CreditNormal(a) == Comps(a)[1] \in CreditNormalRoots
 \* x as a rational <<num, den>>
 PosSign(x, a) == IF CreditNormal(a) THEN <<-x[1], x[2]>> ELSE x
+
+(* ---- the five root names are OPTIONS of the ledger (name_assets, name_liabilities, name_equity, name_income,
+   name_expenses): the type of an account is the POSITION of its root in the type table T of the ledger the
+   query runs on (a sequence of five distinct names; RootNames is the table of a ledger that sets no option).
+   Credit-normal = of type liabilities, equity or income (positions 2, 3, 4), whatever those types are called. *)
+TypeTableOK(T) == Len(T) = 5 /\ \A i, j \in 1..5 : (T[i] = T[j]) => (i = j)
+KnownRootT(T, a) == LET r == Comps(a)[1] IN \E i \in 1..5 : T[i] = r
+TypeIndexT(T, a) == LET r == Comps(a)[1] IN CHOOSE i \in 1..5 : T[i] = r      \* defined when KnownRootT(T, a)
+SortKeyT(T, a) == ToString(TypeIndexT(T, a) - 1) \o "-" \o a
+SortsBeforeT(T, a, b) == TypeIndexT(T, a) < TypeIndexT(T, b) \/ (TypeIndexT(T, a) = TypeIndexT(T, b) /\ StrLess(a, b))
+CreditNormalT(T, a) == TypeIndexT(T, a) \in {2, 3, 4}
+PosSignT(T, x, a) == IF CreditNormalT(T, a) THEN <<-x[1], x[2]>> ELSE x
 =============================================================================
